@@ -146,6 +146,32 @@ def _answer(matches, limit):
     return out
 
 
+def _check_container(res, tag, ms, ans, limit):
+    """The result object is a sequence: what len(), indexing, negative indexing and slicing hand out must be the matches
+    the iteration yields (the answer to this request - not what an earlier, larger request left in the search object)."""
+    def t(m):
+        return (float(m.distance), int(m.idx), float(m.value))
+    if len(ans) > limit:
+        return
+    got, exc = libcall(lambda: {'len': len(ms), 'slice': [t(m) for m in ms[:]],
+                                'index': [t(ms[i]) for i in range(len(ans))],
+                                'last': t(ms[-1]) if ans else None,
+                                'head': [t(m) for m in ms[:1]]})
+    if exc:
+        res.fail(tag + ':container:' + exc, 'len / indexing / slicing of the returned matches raised')
+        return
+    if got['len'] != len(ans):
+        res.fail(tag + ':container:len', 'len() = %d but the iteration yields %d matches' % (got['len'], len(ans)))
+    elif got['slice'] != ans:
+        res.fail(tag + ':container:slice', 'matches[:] = %r, iteration %r' % (got['slice'], ans))
+    elif got['index'] != ans:
+        res.fail(tag + ':container:index', '[matches[i]] = %r, iteration %r' % (got['index'], ans))
+    elif ans and got['last'] != ans[-1]:
+        res.fail(tag + ':container:last', 'matches[-1] = %r, last match of the iteration %r' % (got['last'], ans[-1]))
+    elif got['head'] != ans[:1]:
+        res.fail(tag + ':container:head', 'matches[:1] = %r, iteration %r' % (got['head'], ans[:1]))
+
+
 def _check_answer(res, tag, case, k, ans, dists):
     n = len(case['cands'])
     thr = _threshold(case)
@@ -250,6 +276,7 @@ def run_single(case):
         res.fail('kbest:' + exc, 'kbest_matches(%r) raised' % (k,))
         return res
     _check_answer(res, 'kbest', case, k, ans, dists)
+    _check_container(res, 'kbest', ms, ans, n + 1)
     skipped = (spy.lb_calls - spy.dist_calls) if case['use_lb'] and case['ndim'] == 1 else 0
     res.count('lb_skipped', max(0, skipped))
     res.count('tightened_calls', spy.tightened)
@@ -285,8 +312,11 @@ def run_hist(case):
         fresh, _ = libcall(_mk, case)
         if op[0] == 'kbest':
             k = op[1]
-            got, exc = libcall(lambda: _answer(ss.kbest_matches(k), n + 2))
+            holder = []
+            got, exc = libcall(lambda: _answer(holder.append(ss.kbest_matches(k)) or holder[0], n + 2))
             exp, exc2 = libcall(lambda: _answer(fresh.kbest_matches(k), n + 2))
+            if exc is None:
+                _check_container(res, 'hist:kbest', holder[0], got, n + 1)
         elif op[0] == 'best':
             k = 1
             if not any(d != ref.inf and d <= thr for d in dists):
